@@ -9,22 +9,11 @@ import (
 	"encoding/json"
 	"fmt"
 	"os"
-	"path/filepath"
 	"strings"
 	"time"
 
 	"verif/harness/hx"
 )
-
-// development aid: C19_ASSUME_LISTED=1 behaves as if every proposed finding were already listed
-func knownListed(id string) bool {
-	if os.Getenv("C19_ASSUME_LISTED") != "" {
-		return true
-	}
-	exe, _ := os.Executable()
-	kf, err := os.ReadFile(filepath.Join(filepath.Dir(filepath.Dir(exe)), "known_findings.json"))
-	return err == nil && bytes.Contains(kf, []byte(id))
-}
 
 // an event whose encoding is about n bytes long
 func padEvent(n, i int) []byte {
@@ -340,15 +329,15 @@ func (g *gen) thresholdStreams(allSinks []sinkCfg, names []string, es3cfg hx.Sx,
 		}
 	}
 	w.Count("gelf_time_values_around_1e9_1e12")
-	//   E1b. FINDING C19-gelf-timestamp-inf (generated once known_findings.json lists it): a number that
-	//        overflows float64 becomes "timestamp":+Inf, which is not JSON
-	if knownListed("C19-gelf-timestamp-inf") {
-		g.noGelfOracle = true
-		for _, v := range gelfInfTimes {
-			c.Do("gelf-time-inf", gelf.which, hx.L(gelf.cfg, hx.L(evs(gelf, [][]byte{timeEvent(v)}, 0)), hx.L()), true)
-			c.Do("gelf-time-inf", gelf.which, hx.L(gelf.cfg, hx.L(evs(gelf, [][]byte{g.randEvent(), timeEvent(v), g.randEvent()}, 0)), hx.L()), true)
-		}
-		g.noGelfOracle = false
+	//   E1b. a number that overflows float64 (AsFloat answers +Inf). REPAIRED defect C19-gelf-timestamp-inf
+	//        (/repo 25ddee1): it used to be written as "timestamp":+Inf, which is not JSON; now the clock
+	//        is substituted like for a value below 1e9 (canonicalised to 0 on both sides, and the second
+	//        implementation gelfTimestampRule expects the clock). Exposes the return of the non-finite
+	//        timestamp: the generation-time oracle "one JSON document", the rule, and the model's
+	//        "every chunk is a JSON document" all fail on it.
+	for _, v := range gelfInfTimes {
+		c.Do("gelf-time-inf", gelf.which, hx.L(gelf.cfg, hx.L(evs(gelf, [][]byte{timeEvent(v)}, 0)), hx.L()), true)
+		c.Do("gelf-time-inf", gelf.which, hx.L(gelf.cfg, hx.L(evs(gelf, [][]byte{g.randEvent(), timeEvent(v), g.randEvent()}, 0)), hx.L()), true)
 	}
 	lap("gelf-time")
 	//   E2. wide events: 17..40 fields (insane-json indexes an object of more than 16 fields by a map once
@@ -609,30 +598,41 @@ func (g *gen) lokiStreams() {
 		c.Do("status-edge-loki", L, hx.L(plain, hx.L(hx.L(es...)), ints([]int{st, 500, st})), true)
 	}
 
-	// G3. a batch that is offered again (any answer but 204 / 400; the window is `!= 204`, so 200 too):
-	//     FINDING C19-loki-retry-strips-fields, generated once known_findings.json lists it
-	if knownListed("C19-loki-retry-strips-fields") {
-		n := 10 * c.Scale
-		var cases []hx.Sx
-		// two directed ones: message and timestamp last (survives), timestamp first (never returns)
-		for _, src := range []string{`{"svc":"a","ts":"1600000000000000000","message":"m"}`, `{"ts":"1600000000000000000","a":1,"message":"m"}`} {
-			enc, _ := canon(src)
-			cases = append(cases, hx.L(plain, hx.L(hx.L(mk(0, enc))), ints([]int{500})))
+	// G3. a batch that is offered again (any answer but 204 / 400; the window is `!= 204`, so 200 too), on
+	//     events that DO have a timestamp / message field. REPAIRED defect C19-loki-retry-strips-fields
+	//     (/repo eaffc21): out() used to share the event's nodes with its request tree, send() removed
+	//     the two fields from them, and the second out() never returned or dereferenced nil in the
+	//     worker goroutine. Every attempt must carry the entries of the original events. The cases still
+	//     run in child processes (eight at a time, ~25 ms each): a return of the defect must not take
+	//     the harness down, it shows as the observation ((2)).
+	n := 20 * c.Scale
+	var cases []hx.Sx
+	// directed: message and timestamp last (always worked), timestamp first (used to hang), in the middle
+	for _, src := range []string{
+		`{"svc":"a","ts":"1600000000000000000","message":"m"}`,
+		`{"ts":"1600000000000000000","a":1,"message":"m"}`,
+		`{"a":1,"ts":"1600000000000000000","b":2,"message":"m","c":3}`,
+	} {
+		enc, _ := canon(src)
+		cases = append(cases, hx.L(plain, hx.L(hx.L(mk(0, enc))), ints([]int{500})))
+		cases = append(cases, hx.L(plain, hx.L(hx.L(mk(0, enc), mk(2, enc), mk(0, enc)), hx.L(mk(0, enc))), ints([]int{429, 503, 204, 500})))
+	}
+	for i := 0; i < n; i++ {
+		var es []hx.Sx
+		for k := r.Range(1, 4); k > 0; k-- {
+			es = append(es, mk(0, g.lokiEvent()))
 		}
-		for i := 0; i < n; i++ {
-			var es []hx.Sx
-			for k := r.Range(1, 4); k > 0; k-- {
-				es = append(es, mk(0, g.lokiEvent()))
-			}
-			s := []int{hx.Pick(r, []int{500, 200, 203, 429})}
-			if r.Chance(1, 3) {
-				s = append(s, 503)
-			}
-			cases = append(cases, hx.L(lokiLabels(r), hx.L(hx.L(es...)), ints(s)))
+		s := []int{hx.Pick(r, []int{500, 200, 203, 429})}
+		if r.Chance(1, 3) {
+			s = append(s, 503)
 		}
-		lokiPrefetch(L, cases) // the children run side by side: one that hangs costs its whole timeout
-		for _, cs := range cases {
-			c.Do("retry-loki", L, cs, true)
+		if r.Chance(1, 6) {
+			s = append(s, 500) // three failures: the batcher gives up, the events go to the dead queue
 		}
+		cases = append(cases, hx.L(lokiLabels(r), hx.L(hx.L(es...)), ints(s)))
+	}
+	lokiPrefetch(L, cases)
+	for _, cs := range cases {
+		c.Do("retry-loki", L, cs, true)
 	}
 }
